@@ -342,36 +342,47 @@ def native_weight_split(seed):
     from eminus.energies import get_E, get_Eband, get_Ekin
 
     _setup()
-    rng = np.random.default_rng(seed)
     k1, k2 = np.array([0.05, 0.1, -0.02]), np.array([0.21, -0.13, 0.17])
-    res = []
-    Wa = None
-    for ks, wk, idx in (([k1, k2], [0.25, 0.75], [0, 1]), ([k1, k2, k2, k2], [0.25, 0.25, 0.25, 0.25], [0, 1, 1, 1])):
-        at = Atoms(["Si", "H"], [[0.5, 0.6, 0.4], [2.9, 3.0, 3.3]], ecut=4, a=A_TRI, unrestricted=True)
-        at.s = [11, 11, 13]
-        at.set_k(np.array(ks), np.array(wk))
-        scf = SCF(at, xc="pbe", verbose="critical")
-        at = scf.atoms
-        if Wa is None:
-            Wa = [rng.standard_normal((2, len(at.Gk2c[ik]), at.occ.Nstate)) + 1j * rng.standard_normal((2, len(at.Gk2c[ik]), at.occ.Nstate)) for ik in range(2)]
-        scf.W = orth(at, [Wa[i] for i in idx])
-        scf._precompute()
-        get_E(scf)
-        e = {f.name: float(getattr(scf.energies, f.name)) for f in dataclasses.fields(scf.energies)}
-        e["Eband"] = float(get_Eband(scf, scf.W, **scf._precomputed))
-        # kinetic energy from zero-padded full-basis coefficients
-        ek_a = float(get_Ekin(at, scf.W))
-        full = []
-        for ik in range(at.kpts.Nk):
-            z = np.zeros((2, at.Ns, at.occ.Nstate), dtype=complex)
-            z[:, np.asarray(at.active[ik][0]), :] = np.asarray(scf.W[ik])
-            full.append(z)
-        ek_f = float(get_Ekin(at, full))
-        e["Ekin(full basis) - Ekin(cut-off basis)"] = ek_f - ek_a
-        res.append(e)
-    diffs = {k: abs(res[0][k] - res[1][k]) for k in res[0]}
-    diffs["Ekin(full basis) - Ekin(cut-off basis)"] = max(abs(res[0]["Ekin(full basis) - Ekin(cut-off basis)"]), abs(res[1]["Ekin(full basis) - Ekin(cut-off basis)"]))
-    return max(diffs.values()), dict(check="weights (1/4, 3/4) vs the heavy k-point listed three times; full vs cut-off basis kinetic energy", diffs=diffs)
+    xcs = ["pbe"]
+    try:
+        import pyscf  # noqa: F401
+
+        xcs.append(":MGGA_X_TPSS,:MGGA_C_TPSS")  # the kinetic energy density carries the weights too
+    except ImportError:
+        pass
+    diffs = {}
+    for xc in xcs:
+        rng = np.random.default_rng(seed)
+        res = []
+        Wa = None
+        for ks, wk, idx in (([k1, k2], [0.25, 0.75], [0, 1]), ([k1, k2, k2, k2], [0.25, 0.25, 0.25, 0.25], [0, 1, 1, 1])):
+            at = Atoms(["Si", "H"], [[0.5, 0.6, 0.4], [2.9, 3.0, 3.3]], ecut=4, a=A_TRI, unrestricted=True)
+            at.s = [11, 11, 13]
+            at.set_k(np.array(ks), np.array(wk))
+            scf = SCF(at, xc=xc, verbose="critical")
+            at = scf.atoms
+            if Wa is None:
+                Wa = [rng.standard_normal((2, len(at.Gk2c[ik]), at.occ.Nstate)) + 1j * rng.standard_normal((2, len(at.Gk2c[ik]), at.occ.Nstate)) for ik in range(2)]
+            scf.W = orth(at, [Wa[i] for i in idx])
+            scf._precompute()
+            get_E(scf)
+            e = {f.name: float(getattr(scf.energies, f.name)) for f in dataclasses.fields(scf.energies)}
+            e["Eband"] = float(get_Eband(scf, scf.W, **scf._precomputed))
+            # kinetic energy from zero-padded full-basis coefficients
+            ek_a = float(get_Ekin(at, scf.W))
+            full = []
+            for ik in range(at.kpts.Nk):
+                z = np.zeros((2, at.Ns, at.occ.Nstate), dtype=complex)
+                z[:, np.asarray(at.active[ik][0]), :] = np.asarray(scf.W[ik])
+                full.append(z)
+            ek_f = float(get_Ekin(at, full))
+            e["Ekin(full basis) - Ekin(cut-off basis)"] = ek_f - ek_a
+            res.append(e)
+        tag = "" if xc == "pbe" else "TPSS: "
+        for k in res[0]:
+            diffs[tag + k] = abs(res[0][k] - res[1][k])
+        diffs[tag + "Ekin(full basis) - Ekin(cut-off basis)"] = max(abs(res[0]["Ekin(full basis) - Ekin(cut-off basis)"]), abs(res[1]["Ekin(full basis) - Ekin(cut-off basis)"]))
+    return max(diffs.values()), dict(check="weights (1/4, 3/4) vs the heavy k-point listed three times; full vs cut-off basis kinetic energy; PBE and (with PySCF) TPSS", diffs=diffs)
 
 
 class WeightSplit:
@@ -387,6 +398,6 @@ class WeightSplit:
 
 
 register(Obligation(name="C07.k_weights.split_equivalence_and_full_basis_Ekin", prop=PROP, engine="B", bounded=True, run=WeightSplit(),
-                    functions=["eminus.energies:get_E", "eminus.energies:get_Eband", "eminus.energies:get_Ekin", "eminus.operators:L"], budget={"quick": 300, "thorough": 600},
+                    functions=["eminus.energies:get_E", "eminus.energies:get_Eband", "eminus.energies:get_Ekin", "eminus.operators:L", "eminus.gga:get_tau"], budget={"quick": 300, "thorough": 600},
                     doc="BOUNDED: a weighted k-point equals the same k-point listed several times with the weight divided (every energy, band energy included); "
                         "the kinetic energy at k != 0 is the same from cut-off restricted and zero-padded full-basis coefficients"))
